@@ -26,7 +26,9 @@ RULE = ("single spec {m:SPEC}: every (min,max) in {absent,0,1,2,3,5}^2 (incl. mi
         "U+10FFFF (F4 8F BF BF), combining acute U+0301} x every splitting of the text into non-empty "
         "write_str pieces, with the fill drawn from 16 characters (multi-byte, combining, and the syntax "
         "characters } { ( ) : 0 < > . \\) and the sink script drawn from {accept all, 1, 2, 3 bytes per "
-        "call} (thorough: all four for texts <= 3 chars, two for 4 chars); the same for a random sample of "
+        "call} (thorough: all four for texts <= 3 chars, two for 4 chars), every ninth combination also with a sink "
+        "whose write calls intermittently fail with ErrorKind::Interrupted (nothing written; write_all retries) and a "
+        "fifth of the random scripts with such a call inserted; the same for a random sample of "
         "4-6 character texts over a wider palette (e-acute, euro, U+1D11E, U+0080, U+07FF, U+FFFF, U+10000, "
         "ZWJ, VS16); default-fill / default-alignment spellings ({m:5}, {m:>5}, {m:.3}); then the nested "
         "family {({m:A}{l}):B} and random pattern trees (depth <= 3, groups of <= 3 items over {m}, {t}, "
@@ -91,11 +93,54 @@ def rand_pieces(rng, chars):
     return pieces
 
 
+INTR = 99      # this write call returns ErrorKind::Interrupted (nothing written); std's write_all retries
+INTR_SCRIPTS = [[INTR, 0], [1, INTR], [INTR, 2, INTR, INTR, 3], [0, INTR, 1]]
+
+
 def rand_script(rng):
     r = rng.below(8)
     if r < 4:
-        return SCRIPTS[r]
-    return [rng.below(6) for _ in range(rng.range(1, 4))]
+        sc = list(SCRIPTS[r])
+    else:
+        sc = [rng.below(6) for _ in range(rng.range(1, 4))]
+    if rng.chance(1, 5):
+        sc = (sc or [0])
+        sc.insert(rng.below(len(sc) + 1), INTR)
+    return sc
+
+
+def run_impl(ctx, cases, lines):
+    """three harness processes with different colour environments (NO_COLOR=1 / CLICOLOR_FORCE=1 / none): widths,
+    fills and alignment do not depend on them"""
+    from concurrent.futures import ThreadPoolExecutor
+    vc = ctx["vc"]
+    envs = []
+    for extra in ({"NO_COLOR": "1", "CLICOLOR": "0"}, {"CLICOLOR_FORCE": "1"}, {}):
+        e = dict(vc.ENV)
+        for k in ("NO_COLOR", "CLICOLOR", "CLICOLOR_FORCE"):
+            e.pop(k, None)
+        e.update(extra)
+        envs.append(e)
+    parts = [list(range(k, len(lines), 3)) for k in range(3)]
+    res = [None] * len(lines)
+    with ThreadPoolExecutor(max_workers=3) as ex:
+        outs = list(ex.map(lambda k: vc.run_lines([ctx["vh"]], [lines[i] for i in parts[k]], timeout_per_batch=900,
+                                                  env=envs[k]), range(3)))
+    for k in range(3):
+        for i, g in zip(parts[k], outs[k]):
+            res[i] = g
+    return res
+
+
+def model_lines(ctx, cases, lines, impl_lines):
+    """an interrupted write call is invisible in the model (it accepts nothing and is retried)"""
+    vc = ctx["vc"]
+    out = []
+    for c, ln in zip(cases, lines):
+        if INTR in c[0]:
+            ln = vc.show([[x for x in c[0] if x != INTR]] + list(c[1:]))
+        out.append(ln)
+    return out
 
 
 def rand_params(rng, allow_none=True):
@@ -156,6 +201,8 @@ def cases(rng, tier):
                         scs = [rng.choice(SCRIPTS)]
                     for sc in scs:
                         out.append(single(sc, pieces, [mn, mx, al, fill]))
+                    if idx % 9 == 0:
+                        out.append(single(INTR_SCRIPTS[(idx // 9) % len(INTR_SCRIPTS)], pieces, [mn, mx, al, fill]))
                     idx += 1
     # default spellings
     for (t, pieces) in tp[:: 7]:
